@@ -16,7 +16,7 @@ RULE = (
     "non-trivial = >= 50 sites of which >= 60 % satisfy the local-Delaunay/unencroached predicate (so that their cells are asserted); distinct by spec hash"
 )
 ASSUMPTIONS = [
-    "a site's cell is asserted only if every edge of every triangle incident to it is locally Delaunay (opposite angles sum <= pi+1e-7) or, on the boundary, unencroached (opposite angle <= pi/2+1e-7), as the property states",
+    "a site's cell is asserted only if every edge of every triangle incident to it is locally Delaunay (opposite angles sum <= pi+1e-7) or, on the boundary, unencroached (opposite angle <= pi/2+1e-7), and the circumcircle of every incident triangle contains no other site, as the property states ('wherever the triangulation is locally Delaunay')",
     "shapely is used as a polygon clipping calculator on inputs built by the harness; domain membership uses the harness's winding-number test",
     "a mesh refused by the library with the documented 'Malformed Voronoi cell' error is discarded (counted)",
 ]
@@ -143,6 +143,22 @@ def check_case(spec):
         ok = all(edge_ok[edge_index[(min(u, v), max(u, v))]] for u, v in ((a, b), (b, c), (c, a)))
         if not ok:
             site_ok[[a, b, c]] = False
+    # ... and the circumcircle of every incident triangle contains no other site at all (global Delaunay property around
+    # the site: a triangulation can be locally Delaunay on all edges next to a site while a site two triangles away still
+    # lies inside one of its circumcircles - found by the thorough tier, 2 of 4800 meshes)
+    from scipy.spatial import cKDTree as _KD
+
+    _tree = _KD(P)
+    A_, B_, C_ = tri[:, 0], tri[:, 1], tri[:, 2]
+    d_ = 2 * (A_[:, 0] * (B_[:, 1] - C_[:, 1]) + B_[:, 0] * (C_[:, 1] - A_[:, 1]) + C_[:, 0] * (A_[:, 1] - B_[:, 1]))
+    ux = ((A_**2).sum(1) * (B_[:, 1] - C_[:, 1]) + (B_**2).sum(1) * (C_[:, 1] - A_[:, 1]) + (C_**2).sum(1) * (A_[:, 1] - B_[:, 1])) / d_
+    uy = ((A_**2).sum(1) * (C_[:, 0] - B_[:, 0]) + (B_**2).sum(1) * (A_[:, 0] - C_[:, 0]) + (C_**2).sum(1) * (B_[:, 0] - A_[:, 0])) / d_
+    cc = np.stack([ux, uy], axis=1)
+    rr = np.linalg.norm(cc - A_, axis=1)
+    for k_, (c_, r_) in enumerate(zip(cc, rr)):
+        inside_ = [j for j in _tree.query_ball_point(c_, r_ * (1 - 1e-7)) if j not in T[k_]]
+        if inside_:
+            site_ok[T[k_]] = False
     share = float(np.mean(site_ok))
     res.stat("share_not_asserted", 1 - share)
     res.nontrivial = n >= 50 and share >= 0.6
